@@ -106,6 +106,21 @@ func verifHarness_C16_resource() {
 	})
 	verifAssert(nRoutes == nExpected && total >= nExpected, "the router holds exactly one route per implemented action")
 
+	// a second registration of the same controller (its Uses() table is shared) is as complete as the first
+	if uses {
+		nUses := len(verifC16Uses)
+		r2 := New()
+		r2.Resource("/again/", ctl)
+		ok2 := len(verifC16Uses) == nUses
+		for i, a := range verifRESTTable {
+			if subset>>i&1 == 1 {
+				rt2 := r2.GetRoute(verifLower3(subset, uses) + "_" + lower(a.name))
+				ok2 = verifAnd(ok2, rt2 != nil && verifSameInts(v.of(rt2.Handlers()), usesIDs[a.name]))
+			}
+		}
+		verifAssert(ok2, "registering the controller again attaches the same per-action middleware (the controller's Uses() table is not consumed)")
+	}
+
 	// (2) every probe is dispatched to the action the table gives
 	m := []string{"GET", "POST", "PUT", "PATCH", "DELETE", "HEAD", "OPTIONS", "BREW"}[verifChoice("method", 8)]
 	tn := verifLen("tail_len", 0, verifParam("L"))
